@@ -209,6 +209,10 @@ theorem C19_keyed_config_fails :
 /-- a configuration through `WithInitialRecord` with every record under its id is accepted, listed in key order … -/
 example : (KSt.config? [("b", mB), ("a", mA)] Mode.blank).isSome = true ∧
     (KSt.config [("b", mB), ("a", mA)] Mode.blank).recs = [("a", mA), ("b", mB)] := by decide
+/-- … and satisfies the hypotheses of `C19_keyed_inv` (records under their ids, at most one normal) -/
+example : (∀ e ∈ [("b", mB), ("a", mA)], e.1 = e.2.id) ∧
+    (∀ x ∈ [("b", mB), ("a", mA)], ∀ y ∈ [("b", mB), ("a", mA)], x.2.normal = true → y.2.normal = true → x = y) := by
+  decide
 /-- … a key configured twice is not -/
 example : KSt.config? [("a", mA), ("a", mB)] Mode.blank = none := by decide
 /-- the keyed model and `step` on a tame run: same listing, active mode and results -/
